@@ -79,8 +79,12 @@ def cases(draw, tier):
   for _ in range(n):
     k = draw(st.integers(0, 9))
     q = draw(st.integers(0, nq - 1))
-    if k <= 2:
+    if k <= 1:
       steps.append({'do': 'recipe', 'q': q, 'recipe': draw(recipes(mspec))})
+    elif k == 2:
+      steps.append({'do': 'update', 'q': q, 'rule': draw(R.rules_for(
+          engine.op_out_names(mspec), engine.ops_present(mspec), max_rules=1,
+          cfg_pool=R.STATIC_CFGS + R.FLOAT_COMPUTE_CFGS, allow_skip=False))[0]})
     elif k <= 4:
       steps.append({'do': 'calibrate', 'q': q, 'seeds': [draw(st.integers(0, 99)) for _ in range(draw(st.integers(1, 2)))],
                     'resume': draw(st.booleans())})
@@ -106,6 +110,22 @@ def deep_equal(a, b):
 
 
 def set_recipe(qt, recipe, check_arg=True):
+  """Applies a recipe spec (base recipe, then the later single updates)."""
+  n = _set_base(qt, recipe, check_arg)
+  for r in recipe.get('then', []):
+    apply_update(qt, r)
+  return n
+
+
+def apply_update(qt, r):
+  try:
+    qt.update_quantization_recipe(r['regex'], r['op'], R.make_config(r['cfg']), r['algo'])
+    return True
+  except ValueError:
+    return False
+
+
+def _set_base(qt, recipe, check_arg=True):
   """Applies a recipe spec; returns number of accepted rules (None = shipped)."""
   if recipe['kind'] == 'shipped':
     arg = copy.deepcopy(R.shipped_recipes()[recipe['name']])
@@ -194,6 +214,13 @@ def check_case(case):
     if s['do'] == 'recipe':
       set_recipe(qt, s['recipe'])
       cur_recipe[s['q']] = s['recipe']
+    elif s['do'] == 'update':
+      # one more rule on top of whatever the object holds (no reset)
+      if cur_recipe[s['q']] is None:
+        continue
+      apply_update(qt, s['rule'])
+      cur_recipe[s['q']] = dict(cur_recipe[s['q']], then=list(cur_recipe[s['q']].get('then', [])) + [s['rule']])
+      labels.append('update_after_use' if quantized[s['q']] or shared['calib'] is not None else 'update')
     elif s['do'] == 'calibrate':
       if cur_recipe[s['q']] is None or not qt.get_quantization_recipe():
         continue
@@ -323,6 +350,76 @@ def _dec(calib):
           for k, q in calib.items()}
 
 
+# ---- the model given as a file path -----------------------------------------
+@st.composite
+def path_cases(draw):
+  mspec = draw(G.model_specs(max_nodes=4, max_subgraphs=1))
+  return {'model': mspec,
+          'recipe': {'kind': 'shipped', 'name': draw(st.sampled_from(engine.SHIPPED_NAMES))},
+          'seed': draw(st.integers(0, 99)), 'same_path': draw(st.booleans())}
+
+
+def _variant(mspec):
+  """Same graph, other constant values (a re-trained checkpoint): same file size."""
+  v = copy.deepcopy(mspec)
+  for sg in v['subgraphs']:
+    for t in sg['tensors']:
+      if t['kind'] == 'const' and isinstance(t.get('data'), dict) and 'seed' in t['data']:
+        t['data']['seed'] = t['data']['seed'] + 7
+  return v
+
+
+def _path_quantize(path_or_bytes, case, mspec):
+  qt = quantizer_mod.Quantizer(path_or_bytes)
+  set_recipe(qt, case['recipe'], check_arg=False)
+  calib = None
+  if qt.need_calibration:
+    try:
+      calib = calibrate_all(qt, mspec, [case['seed']], None)
+    except Violation:
+      raise
+    except Exception as e:  # pylint: disable=broad-except
+      return (False, 'calibrate:' + type(e).__name__)
+  ok, r = core.call(qt.quantize, calib)
+  return (True, sha(r.quantized_model)) if ok else (False, type(r).__name__)
+
+
+def check_path_case(case):
+  """Quantizer(path) equals Quantizer(bytes of that file), whatever was read from
+  that (or another) path earlier in the process."""
+  import tempfile, shutil
+  a, b = G.build(case['model']), G.build(_variant(case['model']))
+  d = tempfile.mkdtemp(prefix='vqc14_')
+  try:
+    p1 = os.path.join(d, 'model.tflite')
+    p2 = p1 if case['same_path'] else os.path.join(d, 'model2.tflite')
+    with open(p1, 'wb') as f:
+      f.write(a)
+    try:
+      got_a = _path_quantize(p1, case, case['model'])
+    except Exception as e:  # pylint: disable=broad-except
+      return core.result(False, ['raised:' + type(e).__name__])
+    with open(p2, 'wb') as f:
+      f.write(b)
+    got_b = _path_quantize(p2, case, case['model'])
+    with open(p1, 'rb') as f:
+      if p1 != p2 and f.read() != a:
+        raise Violation('model_file_modified', 'the file passed by path was rewritten')
+  finally:
+    shutil.rmtree(d, ignore_errors=True)
+  want_a = _path_quantize(bytes(a), case, case['model'])
+  want_b = _path_quantize(bytes(b), case, case['model'])
+  if got_a != want_a:
+    raise Violation('path_and_bytes_differ', 'first model: by path %s, by content %s' % (got_a, want_a))
+  if got_b != want_b:
+    raise Violation('quantize_depends_on_history',
+                    'model read from %s after another model had been read from it: by path %s, by content %s' % (
+                        'the same path' if case['same_path'] else 'another path', got_b, want_b))
+  return core.result(got_b[0] and a != b and len(a) == len(b),
+                     ['same_path' if case['same_path'] else 'other_path',
+                      'quantized' if got_b[0] else 'raised', 'same_size' if len(a) == len(b) else 'other_size'])
+
+
 def phases(tier):
   k = float(os.environ.get('VERIF_SCALE', '1'))
   big = tier == 'thorough'
@@ -330,6 +427,8 @@ def phases(tier):
   return [
       {'name': 'histories', 'kind': 'hyp', 'strategy': lambda: cases(tier),
        'run': check_case, 'examples': int((12000 if big else 1200) * k)},
+      {'name': 'model_by_path', 'kind': 'hyp', 'strategy': path_cases,
+       'run': check_path_case, 'examples': int((4000 if big else 300) * k)},
   ]
 
 
